@@ -1,10 +1,724 @@
 /-
-  Model module `Lexer` (driver op `lex`). Import-free apart from RsjModel.* modules.
+  Model of `rsjsonnet-lang/src/lexer/mod.rs` (driver op `lex`).
+
+  The input is a `List Nat` of bytes.  A cursor `Cur` is an explicit position
+  together with the bytes from that position on (`rest = input.drop pos`), so
+  `self.input.get(self.end_pos)` is `rest.head?`.  The lexer state
+  (`start_pos`, `end_pos`) is a pair of cursors; `commit_token` returns the
+  end cursor, which becomes the next start cursor.
+
+  Loops whose step consumes a computed number of bytes (`eat_any_char`,
+  `eat_slice(prefix)`) take explicit fuel; running out of fuel is the explicit
+  outcome `.fuel` (proved unreachable in RsjProofs/Lexer*.lean).  Every
+  `unwrap` is an explicit `.panic` outcome.
+  usize subtraction (`self.end_pos - 2`) is `Nat` subtraction; at each such
+  site at least that many bytes of the current token have been consumed.
+  Assumption: fewer than 2^63 fractional digits (`implicit_exp` is `isize`).
 -/
 import RsjModel.Util
+import RsjModel.Utf8
 namespace Rsj.Lexer
 
-/-- `lex <args...>` : one canonical answer line, or `none` for a malformed request. -/
-def handle (_args : List String) : Option String := none
+/-! ### Tokens and errors (`token.rs`, `lexer/error.rs`) -/
+
+inductive STok where
+  | Assert | Else | Error | False | For | Function | If | Import | Importstr | Importbin
+  | In | Local | Null | Tailstrict | Then | Self_ | Super | True
+  | Exclam | ExclamEq | Dollar | Percent | Amp | AmpAmp | LeftParen | RightParen | Asterisk
+  | Plus | PlusColon | PlusColonColon | PlusColonColonColon | Comma | Minus | Dot | Slash
+  | Colon | ColonColon | ColonColonColon | Semicolon | Lt | LtLt | LtEq | Eq | EqEq | Gt | GtEq
+  | GtGt | LeftBracket | RightBracket | Hat | LeftBrace | Pipe | PipePipe | RightBrace | Tilde
+deriving Repr, DecidableEq
+
+/-- `TokenKind`.  `ident`/`otherOp` carry the bytes of the lexeme, `string` /
+    `textBlock` the scalar values of the decoded `String`, `number` the ASCII
+    digits and the effective exponent. -/
+inductive Kind where
+  | eof | whitespace | comment
+  | simple (k : STok)
+  | otherOp (bytes : List Nat)
+  | ident (bytes : List Nat)
+  | number (digits : List Nat) (exp : Int)
+  | string (chars : List Nat)
+  | textBlock (chars : List Nat)
+deriving Repr, DecidableEq
+
+structure Token where
+  kind : Kind
+  start : Nat
+  stop : Nat
+deriving Repr, DecidableEq
+
+inductive ErrKind where
+  | InvalidChar (chr : Nat)
+  | InvalidUtf8 (seq : List Nat)
+  | UnfinishedMultilineComment
+  | LeadingZeroInNumber
+  | MissingFracDigits
+  | MissingExpDigits
+  | MissingDigitAfterUnderscore
+  | ExpOverflow
+  | InvalidEscapeInString (chr : Nat)
+  | IncompleteUnicodeEscape
+  | InvalidUtf16EscapeSequence (cu1 : Nat) (cu2 : Option Nat)
+  | UnfinishedString
+  | MissingLineBreakAfterTextBlockStart
+  | MissingWhitespaceTextBlockStart
+  | InvalidTextBlockTermination
+deriving Repr, DecidableEq
+
+structure LexErr where
+  kind : ErrKind
+  start : Nat
+  stop : Nat
+deriving Repr, DecidableEq
+
+/-! ### Cursor and the `eat_*` primitives -/
+
+structure Cur where
+  pos : Nat
+  rest : List Nat
+deriving Repr, DecidableEq
+
+namespace Cur
+
+/-- `eat_byte` -/
+def eatByte (c : Cur) (b : Nat) : Option Cur :=
+  match c.rest with
+  | x :: t => if x = b then some ⟨c.pos + 1, t⟩ else none
+  | [] => none
+
+/-- `eat_byte_if` -/
+def eatByteIf (c : Cur) (p : Nat → Bool) : Option Cur :=
+  match c.rest with
+  | x :: t => if p x then some ⟨c.pos + 1, t⟩ else none
+  | [] => none
+
+/-- `eat_get_byte_if` -/
+def eatGetByteIf (c : Cur) (p : Nat → Bool) : Option (Nat × Cur) :=
+  match c.rest with
+  | x :: t => if p x then some (x, ⟨c.pos + 1, t⟩) else none
+  | [] => none
+
+/-- `eat_map_byte` -/
+def eatMapByte {α : Type} (c : Cur) (f : Nat → Option α) : Option (α × Cur) :=
+  match c.rest with
+  | x :: t =>
+    match f x with
+    | some r => some (r, ⟨c.pos + 1, t⟩)
+    | none => none
+  | [] => none
+
+/-- `eat_slice` -/
+def eatSlice (c : Cur) (s : List Nat) : Option Cur :=
+  if s.isPrefixOf c.rest then some ⟨c.pos + s.length, c.rest.drop s.length⟩ else none
+
+/-- `eat_any_byte` -/
+def eatAnyByte (c : Cur) : Option (Nat × Cur) :=
+  match c.rest with
+  | x :: t => some (x, ⟨c.pos + 1, t⟩)
+  | [] => none
+
+def eatWhileAux (p : Nat → Bool) : Nat → List Nat → Cur
+  | pos, [] => ⟨pos, []⟩
+  | pos, x :: t => if p x then eatWhileAux p (pos + 1) t else ⟨pos, x :: t⟩
+
+/-- `while self.eat_byte_if(p) {}` -/
+def eatWhile (c : Cur) (p : Nat → Bool) : Cur := eatWhileAux p c.pos c.rest
+
+end Cur
+
+/-- `Result<char, usize>` of `eat_cont_any_char` -/
+inductive CharRes where
+  | ok (chr : Nat)
+  | bad (errorLen : Nat)
+deriving Repr, DecidableEq
+
+/-- `chr.unwrap_or('\u{FFFD}')` -/
+def CharRes.orRepl : CharRes → Nat
+  | .ok c => c
+  | .bad _ => 0xFFFD
+
+/-- Outcome of `eat_cont_any_char`; `panic` = `char::from_u32(cp).unwrap()`. -/
+inductive ContChar where
+  | panic
+  | some (r : CharRes) (c : Cur)
+deriving Repr, DecidableEq
+
+/-- Outcome of `eat_any_char` (`eof` = `None`). -/
+inductive AnyChar where
+  | eof
+  | panic
+  | some (r : CharRes) (c : Cur)
+deriving Repr, DecidableEq
+
+/-- `eat_cont_any_char(byte0)`; `c` is the cursor after `byte0`. -/
+def eatContAnyChar (c : Cur) (byte0 : Nat) : ContChar :=
+  match Utf8.decodeCont byte0 c.rest with
+  | .chr n chr => .some (.ok chr) ⟨c.pos + n, c.rest.drop n⟩
+  | .bad n => .some (.bad (n + 1)) ⟨c.pos + n, c.rest.drop n⟩
+  | .panic => .panic
+
+/-- `eat_any_char` -/
+def eatAnyChar (c : Cur) : AnyChar :=
+  match c.eatAnyByte with
+  | none => .eof
+  | some (byte0, c1) =>
+    match eatContAnyChar c1 byte0 with
+    | .panic => .panic
+    | .some r c2 => .some r c2
+
+/-- Outcome of scanning one token starting at a given cursor:
+    `tok k c'` = `commit_token(k)` with `end_pos = c'.pos`. -/
+inductive Res where
+  | tok (k : Kind) (c : Cur)
+  | err (k : ErrKind) (start stop : Nat)
+  | panic (site : String)
+  | fuel
+deriving Repr, DecidableEq
+
+def bytesOf (s : String) : List Nat := s.toList.map Char.toNat
+
+/-! ### Comments -/
+
+/-- `while !matches!(self.eat_any_byte(), None | Some(b'\n')) {}` -/
+def slComment : Nat → List Nat → Cur
+  | pos, [] => ⟨pos, []⟩
+  | pos, x :: t => if x = 10 then ⟨pos + 1, t⟩ else slComment (pos + 1) t
+
+def lexSingleLineComment (c : Cur) : Res := .tok .comment (slComment c.pos c.rest)
+
+/-- `lex_multi_line_comment`: `eat_slice(b"*/")` else `eat_any_byte()`. -/
+def mlComment (start : Nat) : Nat → List Nat → Res
+  | pos, [] => .err .UnfinishedMultilineComment start pos
+  | pos, x :: t =>
+    match x, t with
+    | 42, 47 :: t' => .tok .comment ⟨pos + 2, t'⟩
+    | _, _ => mlComment start (pos + 1) t
+
+def lexMultiLineComment (start : Nat) (c : Cur) : Res := mlComment start c.pos c.rest
+
+/-! ### Operators -/
+
+/-- bytes after which `sure_end_pos` is advanced -/
+def isOpSure (b : Nat) : Bool :=
+  b == 58 || b == 38 || b == 124 || b == 94 || b == 61 || b == 60 || b == 62 || b == 42 ||
+  b == 47 || b == 37
+/-- `+ - ~ ! $` -/
+def isOpUnsure (b : Nat) : Bool :=
+  b == 43 || b == 45 || b == 126 || b == 33 || b == 36
+
+/-- The loop of `lex_operator`; returns the final `sure_end_pos` cursor. -/
+def opLoop (sure : Cur) : Nat → List Nat → Cur
+  | _, [] => sure
+  | pos, x :: t =>
+    if [124, 124, 124].isPrefixOf (x :: t) || [47, 47].isPrefixOf (x :: t)
+        || [47, 42].isPrefixOf (x :: t) then sure
+    else if isOpSure x then opLoop ⟨pos + 1, t⟩ (pos + 1) t
+    else if isOpUnsure x then opLoop sure (pos + 1) t
+    else sure
+
+def opTable : List (List Nat × STok) :=
+  [ (bytesOf ":", .Colon), (bytesOf "::", .ColonColon), (bytesOf ":::", .ColonColonColon),
+    (bytesOf "+:", .PlusColon), (bytesOf "+::", .PlusColonColon),
+    (bytesOf "+:::", .PlusColonColonColon), (bytesOf "=", .Eq), (bytesOf "$", .Dollar),
+    (bytesOf "*", .Asterisk), (bytesOf "/", .Slash), (bytesOf "%", .Percent),
+    (bytesOf "+", .Plus), (bytesOf "-", .Minus), (bytesOf "<<", .LtLt), (bytesOf ">>", .GtGt),
+    (bytesOf "<", .Lt), (bytesOf "<=", .LtEq), (bytesOf ">", .Gt), (bytesOf ">=", .GtEq),
+    (bytesOf "==", .EqEq), (bytesOf "!=", .ExclamEq), (bytesOf "&", .Amp), (bytesOf "^", .Hat),
+    (bytesOf "|", .Pipe), (bytesOf "&&", .AmpAmp), (bytesOf "||", .PipePipe),
+    (bytesOf "!", .Exclam), (bytesOf "~", .Tilde) ]
+
+/-- `lex_operator`; `start` is the token start, `c` the cursor after the first byte. -/
+def lexOperator (start c : Cur) : Res :=
+  let e := opLoop c c.pos c.rest
+  let op := start.rest.take (e.pos - start.pos)
+  match opTable.lookup op with
+  | some k => .tok (.simple k) e
+  | none =>
+    if Utf8.valid op then .tok (.otherOp op) e
+    else .panic "lex_operator: from_utf8(op).unwrap()"
+
+/-! ### Identifiers and keywords -/
+
+def isDigit (b : Nat) : Bool := 48 ≤ b && b ≤ 57
+def isAlnum (b : Nat) : Bool := isDigit b || (97 ≤ b && b ≤ 122) || (65 ≤ b && b ≤ 90)
+def isIdentCont (b : Nat) : Bool := isAlnum b || b == 95
+
+def kwTable : List (List Nat × STok) :=
+  [ (bytesOf "assert", .Assert), (bytesOf "else", .Else), (bytesOf "error", .Error),
+    (bytesOf "false", .False), (bytesOf "for", .For), (bytesOf "function", .Function),
+    (bytesOf "if", .If), (bytesOf "import", .Import), (bytesOf "importstr", .Importstr),
+    (bytesOf "importbin", .Importbin), (bytesOf "in", .In), (bytesOf "local", .Local),
+    (bytesOf "null", .Null), (bytesOf "tailstrict", .Tailstrict), (bytesOf "then", .Then),
+    (bytesOf "self", .Self_), (bytesOf "super", .Super), (bytesOf "true", .True) ]
+
+/-- `lex_ident` -/
+def lexIdent (start c : Cur) : Res :=
+  let e := c.eatWhile isIdentCont
+  let identBytes := start.rest.take (e.pos - start.pos)
+  match kwTable.lookup identBytes with
+  | some k => .tok (.simple k) e
+  | none =>
+    if Utf8.valid identBytes then .tok (.ident identBytes) e
+    else .panic "lex_ident: from_utf8(ident_bytes).unwrap()"
+
+/-! ### Numbers -/
+
+inductive NState where
+  | intDigits (underscore : Bool)
+  | dot
+  | fracDigits (underscore : Bool)
+  | exp
+  | expSign
+  | expDigits (underscore : Bool)
+deriving Repr, DecidableEq
+
+structure NumAcc where
+  leadingZero : Bool
+  digits : List Nat            -- ASCII digits, in order
+  implicitExp : Int
+  explicitExp : Option Nat     -- `Option<u64>`
+  explicitExpSign : Bool
+deriving Repr, DecidableEq
+
+def U64_LIM : Nat := 2 ^ 64
+def I64_LIM : Nat := 2 ^ 63
+
+/-- `explicit_exp.and_then(|e| e.checked_mul(10)).and_then(|e| e.checked_add(d))` -/
+def expPush (e : Option Nat) (d : Nat) : Option Nat :=
+  match e with
+  | none => none
+  | some e =>
+    if e * 10 < U64_LIM then
+      if e * 10 + d < U64_LIM then some (e * 10 + d) else none
+    else none
+
+inductive NumRes where
+  | done (acc : NumAcc) (c : Cur)
+  | err (k : ErrKind) (start stop : Nat)
+deriving Repr, DecidableEq
+
+def isExpChar (b : Nat) : Bool := b == 101 || b == 69
+
+/-- The state machine loop of `lex_number`.  `pos`/`rest` is the cursor. -/
+def numLoop : NState → NumAcc → Nat → List Nat → NumRes
+  | st, acc, pos, [] =>
+    -- every `eat_*` fails
+    match st with
+    | .intDigits u => if u then .err .MissingDigitAfterUnderscore (pos - 1) pos else .done acc ⟨pos, []⟩
+    | .dot => .err .MissingFracDigits (pos - 1) pos
+    | .fracDigits u => if u then .err .MissingDigitAfterUnderscore (pos - 1) pos else .done acc ⟨pos, []⟩
+    | .exp => .err .MissingExpDigits (pos - 1) pos
+    | .expSign => .err .MissingExpDigits (pos - 2) pos
+    | .expDigits u => if u then .err .MissingDigitAfterUnderscore (pos - 1) pos else .done acc ⟨pos, []⟩
+  | st, acc, pos, x :: t =>
+    match st with
+    | .intDigits u =>
+      if isDigit x then
+        let endPos := pos + 1
+        if acc.digits.length == 1 && acc.leadingZero then
+          .err .LeadingZeroInNumber (endPos - 2) (endPos - 1)
+        else numLoop (.intDigits false) { acc with digits := acc.digits ++ [x] } endPos t
+      else if !u && x == 95 then numLoop (.intDigits true) acc (pos + 1) t
+      else if x == 46 then numLoop .dot acc (pos + 1) t
+      else if isExpChar x then numLoop .exp acc (pos + 1) t
+      else if u then .err .MissingDigitAfterUnderscore (pos - 1) pos
+      else .done acc ⟨pos, x :: t⟩
+    | .dot =>
+      if isDigit x then
+        numLoop (.fracDigits false)
+          { acc with digits := acc.digits ++ [x], implicitExp := acc.implicitExp - 1 } (pos + 1) t
+      else .err .MissingFracDigits (pos - 1) pos
+    | .fracDigits u =>
+      if isDigit x then
+        numLoop (.fracDigits false)
+          { acc with digits := acc.digits ++ [x], implicitExp := acc.implicitExp - 1 } (pos + 1) t
+      else if !u && x == 95 then numLoop (.fracDigits true) acc (pos + 1) t
+      else if isExpChar x then numLoop .exp acc (pos + 1) t
+      else if u then .err .MissingDigitAfterUnderscore (pos - 1) pos
+      else .done acc ⟨pos, x :: t⟩
+    | .exp =>
+      if x == 43 then numLoop .expSign acc (pos + 1) t
+      else if x == 45 then numLoop .expSign { acc with explicitExpSign := true } (pos + 1) t
+      else if isDigit x then
+        numLoop (.expDigits false) { acc with explicitExp := some (x - 48) } (pos + 1) t
+      else .err .MissingExpDigits (pos - 1) pos
+    | .expSign =>
+      if isDigit x then
+        numLoop (.expDigits false) { acc with explicitExp := some (x - 48) } (pos + 1) t
+      else .err .MissingExpDigits (pos - 2) pos
+    | .expDigits u =>
+      if isDigit x then
+        numLoop (.expDigits false) { acc with explicitExp := expPush acc.explicitExp (x - 48) }
+          (pos + 1) t
+      else if !u && x == 95 then numLoop (.expDigits true) acc (pos + 1) t
+      else if u then .err .MissingDigitAfterUnderscore (pos - 1) pos
+      else .done acc ⟨pos, x :: t⟩
+
+/-- The `eff_exp` computation (`None` = `ExpOverflow`). -/
+def effExp (acc : NumAcc) : Option Int :=
+  match acc.explicitExp with
+  | none => none
+  | some e =>
+    if e < I64_LIM then                       -- i64::try_from(e)
+      let r : Int := if acc.explicitExpSign then acc.implicitExp - e else acc.implicitExp + e
+      if -(I64_LIM : Int) ≤ r ∧ r < (I64_LIM : Int) then some r else none   -- checked_sub / checked_add
+    else none
+
+/-- `lex_number(chr0)`; `c` is the cursor after `chr0`. -/
+def lexNumber (start c : Cur) (chr0 : Nat) : Res :=
+  let acc0 : NumAcc :=
+    { leadingZero := chr0 == 48, digits := [chr0], implicitExp := 0,
+      explicitExp := some 0, explicitExpSign := false }
+  match numLoop (.intDigits false) acc0 c.pos c.rest with
+  | .err k s e => .err k s e
+  | .done acc c' =>
+    match effExp acc with
+    | none => .err .ExpOverflow start.pos c'.pos
+    | some ee => .tok (.number acc.digits ee) c'
+
+/-! ### Quoted and verbatim strings -/
+
+/-- `hex_from_digit` -/
+def hexFromDigit (b : Nat) : Option Nat :=
+  if 48 ≤ b ∧ b ≤ 57 then some (b - 48)
+  else if 97 ≤ b ∧ b ≤ 102 then some (b - 97 + 10)
+  else if 65 ≤ b ∧ b ≤ 70 then some (b - 65 + 10)
+  else none
+
+/-- `eat_codeunit`: the cursor advances over the digits eaten even on failure. -/
+def eatCodeunit (c : Cur) : Option Nat × Cur :=
+  match c.eatMapByte hexFromDigit with
+  | none => (none, c)
+  | some (d0, c1) =>
+    match c1.eatMapByte hexFromDigit with
+    | none => (none, c1)
+    | some (d1, c2) =>
+      match c2.eatMapByte hexFromDigit with
+      | none => (none, c2)
+      | some (d2, c3) =>
+        match c3.eatMapByte hexFromDigit with
+        | none => (none, c3)
+        | some (d3, c4) => (some ((d0 <<< 12) ||| (d1 <<< 8) ||| (d2 <<< 4) ||| d3), c4)
+
+def isSurrogate (cu : Nat) : Bool := 0xD800 ≤ cu && cu ≤ 0xDFFF
+
+/-- `char::decode_utf16([cu1, cu2]).next().unwrap()` for a surrogate `cu1`:
+    `some chr` for `Ok(chr)`, `none` for `Err(_)`. -/
+def decodeUtf16Pair (cu1 cu2 : Nat) : Option Nat :=
+  if cu1 ≥ 0xDC00 then none
+  else if cu2 < 0xDC00 ∨ cu2 > 0xDFFF then none
+  else some ((((cu1 &&& 0x3FF) <<< 10) ||| (cu2 &&& 0x3FF)) + 0x10000)
+
+/-- What one escape sequence does (the cursor is after the backslash). -/
+inductive EscRes where
+  | push (chr : Nat) (c : Cur)
+  | err (k : ErrKind) (start stop : Nat)
+  | panic
+deriving Repr, DecidableEq
+
+def simpleEscapes : List (Nat × Nat) :=
+  [ (34, 34), (39, 39), (92, 92), (47, 47), (98, 8), (102, 12), (110, 10), (114, 13), (116, 9) ]
+
+/-- The `\uXXXX` branch; `c` is the cursor after `u`. -/
+def lexUnicodeEscape (escapeStart : Nat) (c : Cur) : EscRes :=
+  match eatCodeunit c with
+  | (none, c1) => .err .IncompleteUnicodeEscape escapeStart c1.pos
+  | (some cu1, c1) =>
+    match (if isSurrogate cu1 then c1.eatSlice [92, 117] else none) with
+    | some c2 =>
+      match eatCodeunit c2 with
+      | (none, c3) => .err .IncompleteUnicodeEscape (escapeStart + 6) c3.pos
+      | (some cu2, c3) =>
+        match decodeUtf16Pair cu1 cu2 with
+        | some chr => .push chr c3
+        | none => .err (.InvalidUtf16EscapeSequence cu1 (some cu2)) escapeStart c3.pos
+    | none =>
+      if Utf8.isScalar cu1 then .push cu1 c1            -- char::from_u32(cu1)
+      else .err (.InvalidUtf16EscapeSequence cu1 none) escapeStart c1.pos
+
+/-- The escape branch of `lex_quoted_string`; `c` is the cursor after `\`.
+    The nine `eat_byte` tests for the single-character escapes are one table lookup. -/
+def lexEscape (start : Nat) (c : Cur) : EscRes :=
+  let escapeStart := c.pos - 1
+  match c.eatMapByte (fun b => simpleEscapes.lookup b) with
+  | some (chr, c1) => .push chr c1
+  | none =>
+    match c.eatByte 117 with
+    | some c1 => lexUnicodeEscape escapeStart c1
+    | none =>
+      match eatAnyChar c with
+      | .eof => .err .UnfinishedString start c.pos
+      | .panic => .panic
+      | .some r c1 => .err (.InvalidEscapeInString r.orRepl) escapeStart c1.pos
+
+/-- The loop of `lex_quoted_string`; `str` is the string built so far, reversed. -/
+def quotedLoop (start delim : Nat) : Nat → Cur → List Nat → Res
+  | 0, _, _ => .fuel
+  | f + 1, c, str =>
+    match c.eatByte delim with
+    | some c1 => .tok (.string str.reverse) c1
+    | none =>
+      match c.eatByte 92 with
+      | some c1 =>
+        match lexEscape start c1 with
+        | .push chr c2 => quotedLoop start delim f c2 (chr :: str)
+        | .err k s e => .err k s e
+        | .panic => .panic "decode_cont_char: from_u32(cp).unwrap()"
+      | none =>
+        match eatAnyChar c with
+        | .eof => .err .UnfinishedString start c.pos
+        | .panic => .panic "decode_cont_char: from_u32(cp).unwrap()"
+        | .some r c1 => quotedLoop start delim f c1 (r.orRepl :: str)
+
+def lexQuotedString (start c : Cur) (delim : Nat) : Res :=
+  quotedLoop start.pos delim (c.rest.length + 1) c []
+
+/-- The loop of `lex_verbatim_string`. -/
+def verbatimLoop (start delim : Nat) : Nat → Cur → List Nat → Res
+  | 0, _, _ => .fuel
+  | f + 1, c, str =>
+    match c.eatByte delim with
+    | some c1 =>
+      match c1.eatByte delim with
+      | some c2 => verbatimLoop start delim f c2 (delim :: str)
+      | none => .tok (.string str.reverse) c1
+    | none =>
+      match eatAnyChar c with
+      | .eof => .err .UnfinishedString start c.pos
+      | .panic => .panic "decode_cont_char: from_u32(cp).unwrap()"
+      | .some r c1 => verbatimLoop start delim f c1 (r.orRepl :: str)
+
+def lexVerbatimString (start c : Cur) (delim : Nat) : Res :=
+  verbatimLoop start.pos delim (c.rest.length + 1) c []
+
+/-! ### Text blocks -/
+
+def isSpTab (b : Nat) : Bool := b == 32 || b == 9
+def isSpTabCr (b : Nat) : Bool := b == 32 || b == 9 || b == 13
+
+inductive TbFirst where
+  | found (pfx : List Nat) (c : Cur) (str : List Nat)
+  | err (k : ErrKind) (start stop : Nat)
+  | fuel
+deriving Repr, DecidableEq
+
+/-- The first `loop` of `lex_text_block` (after the line break that follows
+    `|||`): skips fully empty lines and captures the first line's `prefix`. -/
+def tbFirst : Nat → Cur → List Nat → TbFirst
+  | 0, _, _ => .fuel
+  | f + 1, c, str =>
+    let prefixStart := c.pos
+    let c1 := c.eatWhile isSpTab
+    let prefixEnd := c1.pos
+    let pfx := c.rest.take (prefixEnd - prefixStart)
+    let (c2, str2) :=
+      match c1.eatByte 13 with
+      | some c2 => (c2, 13 :: str)
+      | none => (c1, str)
+    if pfx.isEmpty then
+      match c2.eatByte 10 with
+      | some c3 => tbFirst f c3 (10 :: str2)
+      | none => .err .MissingWhitespaceTextBlockStart prefixStart prefixEnd
+    else .found pfx c2 str2
+
+/-- "Handle fully empty lines": `eat_byte(b'\n')` / `eat_slice(b"\r\n")` loop. -/
+def tbEmptyLines : Nat → List Nat → List Nat → Cur × List Nat
+  | pos, [], str => (⟨pos, []⟩, str)
+  | pos, x :: t, str =>
+    if x = 10 then tbEmptyLines (pos + 1) t (10 :: str)
+    else
+      match x, t with
+      | 13, 10 :: t' => tbEmptyLines (pos + 2) t' (10 :: 13 :: str)
+      | _, _ => (⟨pos, x :: t⟩, str)
+
+/-- The `'outer` loop of `lex_text_block`. -/
+def tbLoop (start : Nat) (pfx : List Nat) (stripLastLf : Bool) : Nat → Cur → List Nat → Res
+  | 0, _, _ => .fuel
+  | f + 1, c, str =>
+    match c.eatByte 10 with
+    | some c1 =>
+      let (c2, str2) := tbEmptyLines c1.pos c1.rest (10 :: str)
+      match c2.eatSlice pfx with
+      | some c3 => tbLoop start pfx stripLastLf f c3 str2
+      | none =>
+        let lineStart := c2.pos
+        let c3 := c2.eatWhile isSpTab
+        match c3.eatSlice [124, 124, 124] with
+        | some c4 =>
+          if stripLastLf then
+            match str2 with
+            | 10 :: s => .tok (.textBlock s.reverse) c4
+            | _ => .panic "lex_text_block: strip_suffix('\\n').unwrap()"
+          else .tok (.textBlock str2.reverse) c4
+        | none => .err .InvalidTextBlockTermination lineStart c3.pos
+    | none =>
+      match eatAnyChar c with
+      | .eof => .err .UnfinishedString start c.pos
+      | .panic => .panic "decode_cont_char: from_u32(cp).unwrap()"
+      | .some r c1 => tbLoop start pfx stripLastLf f c1 (r.orRepl :: str)
+
+/-- `lex_text_block`; `c` is the cursor after `|||`. -/
+def lexTextBlock (start c : Cur) : Res :=
+  let (strip, c1) :=
+    match c.eatByte 45 with
+    | some c1 => (true, c1)
+    | none => (false, c)
+  let c2 := c1.eatWhile isSpTabCr
+  match c2.eatByte 10 with
+  | none => .err .MissingLineBreakAfterTextBlockStart start.pos c2.pos
+  | some c3 =>
+    match tbFirst (c3.rest.length + 1) c3 [] with
+    | .fuel => .fuel
+    | .err k s e => .err k s e
+    | .found pfx c4 str => tbLoop start.pos pfx strip (c4.rest.length + 1) c4 str
+
+/-! ### `next_token` and `lex_to_eof` -/
+
+def isWs (b : Nat) : Bool := b == 32 || b == 9 || b == 10 || b == 13
+
+def simpleByte : List (Nat × STok) :=
+  [ (123, .LeftBrace), (125, .RightBrace), (91, .LeftBracket), (93, .RightBracket),
+    (44, .Comma), (46, .Dot), (40, .LeftParen), (41, .RightParen), (59, .Semicolon) ]
+
+/-- `! $ : ~ + - & ^ = < > * %` -/
+def isOpStart (b : Nat) : Bool :=
+  b == 33 || b == 36 || b == 58 || b == 126 || b == 43 || b == 45 || b == 38 || b == 94 ||
+  b == 61 || b == 60 || b == 62 || b == 42 || b == 37
+
+/-- `next_token` with `start_pos = end_pos = c.pos`. -/
+def nextToken (c : Cur) : Res :=
+  match c.rest with
+  | [] => .tok .eof c
+  | x :: t =>
+    let c1 : Cur := ⟨c.pos + 1, t⟩
+    match simpleByte.lookup x with
+    | some k => .tok (.simple k) c1
+    | none =>
+      if x = 47 then
+        match c1.eatByte 47 with
+        | some c2 => lexSingleLineComment c2
+        | none =>
+          match c1.eatByte 42 with
+          | some c2 => lexMultiLineComment c.pos c2
+          | none => lexOperator c c1
+      else if x = 124 then
+        match c1.eatSlice [124, 124] with
+        | some c2 => lexTextBlock c c2
+        | none => lexOperator c c1
+      else if isOpStart x then lexOperator c c1
+      else if isWs x then .tok .whitespace (c1.eatWhile isWs)
+      else if x = 35 then lexSingleLineComment c1
+      else if isDigit x then lexNumber c c1 x
+      else if x = 95 || (97 ≤ x && x ≤ 122) || (65 ≤ x && x ≤ 90) then lexIdent c c1
+      else if x = 64 then
+        match c1.eatByte 39 with
+        | some c2 => lexVerbatimString c c2 39
+        | none =>
+          match c1.eatByte 34 with
+          | some c2 => lexVerbatimString c c2 34
+          | none => .err (.InvalidChar 64) c.pos c1.pos
+      else if x = 39 then lexQuotedString c c1 39
+      else if x = 34 then lexQuotedString c c1 34
+      else
+        match eatContAnyChar c1 x with
+        | .panic => .panic "decode_cont_char: from_u32(cp).unwrap()"
+        | .some (.ok chr) c2 => .err (.InvalidChar chr) c.pos c2.pos
+        | .some (.bad _) c2 => .err (.InvalidUtf8 (c.rest.take (c2.pos - c.pos))) c.pos c2.pos
+
+inductive Outcome where
+  | ok (toks : List Token)
+  | err (e : LexErr)
+  | panic (site : String)
+  | fuel
+deriving Repr, DecidableEq
+
+def isTrivia : Kind → Bool
+  | .whitespace => true
+  | .comment => true
+  | _ => false
+
+def notTrivia (t : Token) : Bool := !isTrivia t.kind
+
+/-- The loop of `lex_to_eof`; `acc` is `tokens`, reversed. -/
+def lexLoop (wsAndComments : Bool) : Nat → Cur → List Token → Outcome
+  | 0, _, _ => .fuel
+  | f + 1, c, acc =>
+    match nextToken c with
+    | .err k s e => .err ⟨k, s, e⟩
+    | .panic s => .panic s
+    | .fuel => .fuel
+    | .tok k c' =>
+      let token : Token := ⟨k, c.pos, c'.pos⟩
+      let acc' := if wsAndComments || !isTrivia k then token :: acc else acc
+      match k with
+      | .eof => .ok acc'.reverse
+      | _ => lexLoop wsAndComments f c' acc'
+
+/-- `Lexer::new(.., input).lex_to_eof(whitespaces_and_comments)` -/
+def lexAll (input : List Nat) (wsAndComments : Bool) : Outcome :=
+  lexLoop wsAndComments (input.length + 1) ⟨0, input⟩ []
+
+/-! ### Driver -/
+
+def STok.name (k : STok) : String :=
+  -- `Repr` of a constructor prints its fully qualified name
+  (((toString (repr k)).splitOn ".").getLast?).getD "?"
+
+def utf8Encode (chars : List Nat) : List Nat := chars.flatMap Rsj.utf8EncodeChar
+
+def showKind : Kind → String × Option String
+  | .eof => ("EndOfFile", none)
+  | .whitespace => ("Whitespace", none)
+  | .comment => ("Comment", none)
+  | .simple k => ("Simple", some k.name)
+  | .otherOp b => ("OtherOp", some (Rsj.hexEnc b))
+  | .ident b => ("Ident", some (Rsj.hexEnc b))
+  | .number d e => ("Number", some (String.ofList (d.map Char.ofNat) ++ "," ++ toString e))
+  | .string s => ("String", some (Rsj.hexEnc (utf8Encode s)))
+  | .textBlock s => ("TextBlock", some (Rsj.hexEnc (utf8Encode s)))
+
+def showToken (t : Token) : String :=
+  match showKind t.kind with
+  | (n, none) => s!"{n}:{t.start}:{t.stop}"
+  | (n, some p) => s!"{n}:{t.start}:{t.stop}:{p}"
+
+def showErrKind : ErrKind → String × Option String
+  | .InvalidChar c => ("InvalidChar", some (toString c))
+  | .InvalidUtf8 s => ("InvalidUtf8", some (Rsj.hexEnc s))
+  | .UnfinishedMultilineComment => ("UnfinishedMultilineComment", none)
+  | .LeadingZeroInNumber => ("LeadingZeroInNumber", none)
+  | .MissingFracDigits => ("MissingFracDigits", none)
+  | .MissingExpDigits => ("MissingExpDigits", none)
+  | .MissingDigitAfterUnderscore => ("MissingDigitAfterUnderscore", none)
+  | .ExpOverflow => ("ExpOverflow", none)
+  | .InvalidEscapeInString c => ("InvalidEscapeInString", some (toString c))
+  | .IncompleteUnicodeEscape => ("IncompleteUnicodeEscape", none)
+  | .InvalidUtf16EscapeSequence a b =>
+    ("InvalidUtf16EscapeSequence",
+      some (toString a ++ "," ++ (match b with | some b => toString b | none => "-")))
+  | .UnfinishedString => ("UnfinishedString", none)
+  | .MissingLineBreakAfterTextBlockStart => ("MissingLineBreakAfterTextBlockStart", none)
+  | .MissingWhitespaceTextBlockStart => ("MissingWhitespaceTextBlockStart", none)
+  | .InvalidTextBlockTermination => ("InvalidTextBlockTermination", none)
+
+def showOutcome : Outcome → String
+  | .ok toks => ";".intercalate (toks.map showToken)
+  | .err e =>
+    match showErrKind e.kind with
+    | (n, none) => s!"E{n}:{e.start}:{e.stop}"
+    | (n, some d) => s!"E{n}:{e.start}:{e.stop}:{d}"
+  | .panic s => "panic " ++ Rsj.hexEnc (bytesOf s)
+  | .fuel => "fuel"
+
+/-- `lex <hexbytes> <0|1>` : one canonical answer line, or `none` for a malformed request. -/
+def handle (args : List String) : Option String :=
+  match args with
+  | [h, f] => do
+    let input ← Rsj.hexDecode h
+    let flag ← (if f == "1" then some true else if f == "0" then some false else none)
+    pure (showOutcome (lexAll input flag))
+  | _ => none
 
 end Rsj.Lexer
